@@ -201,6 +201,9 @@ def run(ctx):
                         "period": r["period"], "locale": r["locale"]})
         # refinement-on-trace of every run of the absolute / no-spaces parser these calls reach (at most a few per call)
         records.extend((absfam.abs_records(i, r) + absfam.nsp_records(i, r))[:4])
+        # ... and of the parser loop of (at most two of) the locales tried
+        for e in [e for e in r.get("probe", []) if e.get("ev") == "parser_loop"][:2]:
+            records.append({"kind": "ploop", "tid": i, "parsers": e["parsers"], "tries": e["tries"], "found": e["found"]})
     twin_index = {}
     for tc, tr3 in zip(twins, twin_results):
         for j, r in enumerate(tr3):
@@ -259,6 +262,10 @@ def run(ctx):
                 verdict, expected="datetime or None / documented exception", observed={"exc": r["exc"], "msg": r.get("msg")})
             continue
         c, r = cases[tid], results[tid]
+        if kind == "abs" and verdict == "parser-loop":
+            ndrift += 1
+            ctx.note_drift("Pipeline", {"string": c["s"], "kw": c["kw"], "settings": c["settings"], "tries": exc})
+            continue
         if kind == "abs":
             ndrift += 1
             ctx.note_drift("AbsParser" if verdict == "absparser" else "NoSpaces",
@@ -275,7 +282,7 @@ def run(ctx):
                       observed={"exc": r["exc"], "msg": r.get("msg"), "out": r["out"], "period": r["period"], "locale": r["locale"]}, extra={"full_case": c})
     ctx.notes.append({"reject_classes": {"%s|%s|%s" % k: v for k, v in seen.items()}})
     cov = {
-        "live_parser_look_alike_histories": len(twins), "settings_arguments_judged_by_Validate": len(vals),
+        "live_parser_look_alike_histories": len(twins), "parser_loop_events_validated": sum(1 for r_ in records if r_.get("kind") == "ploop"), "settings_arguments_judged_by_Validate": len(vals),
         "evaluations": len(cases), "distinct_nontrivial": len({(c["s"], repr(c["kw"]), repr(c["settings"])) for c, r in zip(cases, results) if r["out"]}),
         "rule": "case = (string <= 100 chars, settings from the pool, languages / locales / region, date_formats); non-trivial = distinct call returning a datetime",
         "exhaustive": False, "states": mc.distinct, "transitions": mc.generated, "traces_validated_against_impl": len(cases),
